@@ -125,6 +125,7 @@ def report(prop, tier, seed, mod, results, t0):
     axioms = []
     functions = set(getattr(mod, 'META', {}).get('functions', []))
     vac = 0
+    reach = 0
     paths = 0
     stats = {}
     for res in results:
@@ -145,6 +146,8 @@ def report(prop, tier, seed, mod, results, t0):
             functions.add(f)
         if res['vacuity'] == 'sat':
             vac += 1
+        if res.get('reach') == 'sat':
+            reach += 1
         elif res['vacuity'] not in (None, 'sat', 'unsat'):
             harness.append('%s: vacuity witness not obtained (%s)' % (res['name'], res['vacuity']))
         paths += res['paths']
@@ -249,7 +252,7 @@ def report(prop, tier, seed, mod, results, t0):
         'per_solver': {k: {'queries': v[0], 'time_s': round(v[1], 2)} for k, v in by_solver.items()},
         'optional_obligations': n_opt, 'optional_discharged': n_opt_dis,
         'scenarios': len(results), 'paths': paths,
-        'vacuity_witnesses': vac,
+        'vacuity_witnesses': vac, 'definedness_reachability_witnesses': reach,
         'translator_validation': {'points': val_pts, 'values_compared': val_cmp},
         'cross_solver_checks': cross_n,
         'axiom_instances': axioms,
